@@ -48,7 +48,9 @@ def run_tlc(module, cfg, *, workers=16, cwd=None, extra=(), env=None, timeout=36
     meta = os.path.join(work, "meta")
     modpath = module if os.path.isabs(module) else os.path.join(SPEC_DIR, module + ".tla")
     cfgpath = cfg if os.path.isabs(cfg) else os.path.join(SPEC_DIR, cfg)
-    cmd = ["java", "-XX:+UseParallelGC"]
+    jtmp = os.path.join(work, "jtmp")        # TLC leaves an empty tlc-<n> directory in java.io.tmpdir per run: keep them in the scratch tree
+    os.makedirs(jtmp, exist_ok=True)
+    cmd = ["java", "-XX:+UseParallelGC", f"-Djava.io.tmpdir={jtmp}"]
     if heap:
         cmd.append(f"-Xmx{heap}")
     cmd += list(java_opts)
